@@ -732,7 +732,7 @@ class Factory:
             if operation_mode == OperationMode.REPLANNER:
                 assert problem is not None
                 if (
-                    problem.kind.has_quality_metrics()
+                    not problem.kind.has_quality_metrics()
                     and optimality_guarantee == OptimalityGuarantee.SOLVED_OPTIMALLY
                 ):
                     msg = f"The problem has no quality metrics but the engine is required to be optimal!"
